@@ -23,6 +23,9 @@ CHECKS = {
  "C06": ("exploration", "differential property test against an independent implementation of FORMAT.md, both directions, plus incremental AES-GCM vs the aes-gcm crate over generated message splits",
          "Archives written by the library are decoded by refimpl (written from FORMAT.md only: header, ECIES wrap, nonce||BE32(i) chunks, brotli blocks + sizes footer, typed records, end marker, index) and must yield the model's files and the documented structure; archives encoded by refimpl with free parameters must be read identically by the library; the cipher core must equal standard AES-256-GCM for every split. A symmetric change of writer and reader is caught because the other side is independent.",
          "Trusts refimpl (self-test pins it to every number FORMAT.md prints for samples/archive_v1.mla) and the aes-gcm, hkdf, sha2, x25519-dalek, brotli crates as primitives.", "DESIGN.md section 4 C06"),
+ "C07": ("exploration", "property tests with statistical and search oracles: repeated creation in-process and across worker processes (pairwise distinctness, per-bit balance), marker search over generated encrypted archives, generated recipient sets x candidate key lists",
+         "Detects constant or per-process seeding, key / nonce / ephemeral-key reuse, gross entropy loss, any write path that lets plaintext or names through unencrypted, and key-list handling errors (opens iff a recipient key is in the candidate list, at any position). It cannot establish that values are never repeated or unpredictable.",
+         "13-sigma statistical bands; incompressible marker contents so that a cipher bypass stays visible behind compression; production constants only.", "DESIGN.md section 4 C07"),
  "C09": ("exploration", "stateful model-based property test: exhaustive enumeration of short writer call sequences over an abstract alphabet plus generated long sequences, judged by a state model, read-back and a twin writer that receives only the accepted calls",
          "Every call whose refusal can be known before writing must return Err exactly when the model says so; after closing and finalizing, the archive must equal the model and the twin writer's archive (byte-identical up to the end marker without layers), so a refused call that leaves any trace is caught; a short source must never yield Ok.",
          "The model encodes the refusal rules listed in the property; ids are assumed sequential only to name add_file's file.", "DESIGN.md section 4 C09"),
